@@ -415,6 +415,26 @@ func (g *gen) expr(e ast.Expr, en *env) string {
 			}
 		}
 	case *ast.BinaryExpr:
+		// the one float→integer idiom: `int(f) % c == 0` / `!= 0`, with gc/amd64's out-of-range behaviour (F64.intRemZero)
+		if x.Op == token.EQL || x.Op == token.NEQ {
+			if z := g.constInt(x.Y); z != nil && *z == 0 {
+				if rem, ok := stripParens(x.X).(*ast.BinaryExpr); ok && rem.Op == token.REM {
+					if d := g.constInt(rem.Y); d != nil && *d > 0 {
+						if conv, ok := stripParens(rem.X).(*ast.CallExpr); ok && len(conv.Args) == 1 {
+							if tv, ok := g.info.Types[conv.Fun]; ok && tv.IsType() && g.isFloat(conv.Args[0]) {
+								if to, ok := tv.Type.Underlying().(*types.Basic); ok && (to.Kind() == types.Int || to.Kind() == types.Int64) {
+									r := fmt.Sprintf("(F64.intRemZero %s (%d : Nat))", g.expr(conv.Args[0], en), *d)
+									if x.Op == token.NEQ {
+										r = "(!" + r + ")"
+									}
+									return r
+								}
+							}
+						}
+					}
+				}
+			}
+		}
 		a, b := g.expr(x.X, en), g.expr(x.Y, en)
 		if x.Op == token.LAND {
 			return fmt.Sprintf("(%s && %s)", a, b)
@@ -1419,6 +1439,12 @@ func (g *gen) precheck(name string, fd *ast.FuncDecl, tableMode bool) {
 					case types.Float32, types.Complex64, types.Complex128, types.UntypedComplex:
 						g.die(x, "%s arithmetic is not modelled", bt.Name())
 					}
+					// an integer constant >= 2^31 (or negative) as a VALUE anywhere: 64-bit integers must stay small
+					if tv.Value != nil && tv.Value.Kind() == constant.Int && bt.Info()&types.IsInteger != 0 {
+						if c := g.constInt(x); c == nil || *c >= 1<<31 {
+							g.die(x, "integer constant %s is negative or >= 2^31: not modelled (no wrap-around in the model)", tv.Value.ExactString())
+						}
+					}
 				}
 			}
 		}
@@ -1589,8 +1615,12 @@ func (g *gen) precheck(name string, fd *ast.FuncDecl, tableMode bool) {
 				to, ok1 := tv.Type.Underlying().(*types.Basic)
 				from, ok2 := g.typeOf(x.Args[0]).Underlying().(*types.Basic)
 				if ok1 && ok2 && to.Info()&types.IsInteger != 0 && from.Info()&types.IsFloat != 0 && g.constInt(x) == nil {
-					// float -> integer: modelled as |x| truncated; only the idiom `int(f) % c == 0` (or != 0) is insensitive to that
+					// float -> integer: only the idiom `int(f) % c == 0` (or != 0) with a SIGNED 64-bit target, which is modelled
+					// exactly (sign-symmetric; out of range = -2^63 on amd64: F64.intRemZero)
 					okIdiom := false
+					if to.Kind() != types.Int && to.Kind() != types.Int64 {
+						g.die(x, "float-to-integer conversion to %s is not modelled", to.Name())
+					}
 					p1 := parent[x]
 					for {
 						if pe, ok := p1.(*ast.ParenExpr); ok {
